@@ -154,6 +154,14 @@ func main() {
 				fmt.Printf("%s: read %s at %s; refreshed by %s; used at %s: %s\n", shortFuncID(fn), prog.describe(su.Read), prog.IPos(su.Read), prog.IPos(su.Refresh), prog.IPos(su.Use), su.Use.String())
 			}
 		}
+		for _, fn := range prog.productFuncs() {
+			if fn.Parent() != nil {
+				continue
+			}
+			for _, lu := range prog.lostUpdates(fn) {
+				fmt.Printf("LOST %s: %s at %s; refresh at %s; write at %s\n", shortFuncID(fn), lu.Setter, prog.IPos(lu.Set), prog.IPos(lu.Refresh), prog.IPos(lu.Write))
+			}
+		}
 		return
 	}
 	if *listW {
